@@ -4,7 +4,7 @@
    every start offset, both values of fullparse, the empty input). *)
 From Coq Require Import List Arith Bool ZArith.
 Import ListNotations.
-Require Import ExcerptModel Model Spec Refine Entry Finalize EntryProofs.
+Require Import ExcerptModel Model Spec Refine Entry Finalize EntryProofs Shift.
 
 (* For every well-formed grammar, every entry rule (parameterless rule or
    class), every text, offset p and value of fullparse:
@@ -53,3 +53,27 @@ Example C08_zero_width_on_empty_text :
   parse_model true ex_g [] None [] (fun _ _ => None) 10 0 0 true
   = Return (FObj 1 [FNone] ((0%Z, None), ((-1)%Z, None))).
 Proof. vm_compute. reflexivity. Qed.
+
+(* the shift law: parsing text from offset k is parsing text[k:] from 0 with the end of the match and every span in
+   the value shifted by k — any expression without Backtrack, any nesting, template calls included, any input; the
+   two regex oracles are related the way regular expressions without lookbehind or anchors are *)
+Theorem C08_shift_law :
+  forall (g funs : list (list nat * expr)) (ignored : option nat) (t : list nat) (k : nat)
+         (rx rx' : nat -> nat -> option nat),
+    (forall id p, rx id (p + k) = option_map (fun q => q + k) (rx' id p)) ->
+    (forall r ps b, nth_error g r = Some (ps, b) -> nobt b) ->
+    (forall fid ps b, nth_error funs fid = Some (ps, b) -> nobt b) ->
+    forall n e E p, nobt e ->
+      peg g funs ignored t rx n (shE k E) e (p + k) = shr k (peg g funs ignored (skipn k t) rx' n E e p).
+Proof. exact peg_shift. Qed.
+Print Assumptions C08_shift_law.
+
+(* not vacuous: a class inside a repetition, text "xx" ++ "abab", offset 2 *)
+Example C08_shift_law_witness :
+  let g := [([], Rep (Ref 1) BNone BNone); ([], Class 7 [(Some 1, true, Str [97] false); (Some 2, true, Str [98] false)])] in
+  let t := [120; 120; 97; 98; 97; 98] in
+  peg g [] None t (fun _ _ => None) 9 [] (Ref 0) 2
+  = Match (VList [VObj 7 [VStr [97]; VStr [98]] (2, 4); VObj 7 [VStr [97]; VStr [98]] (4, 6)]) 6 /\
+  peg g [] None (skipn 2 t) (fun _ _ => None) 9 [] (Ref 0) 0
+  = Match (VList [VObj 7 [VStr [97]; VStr [98]] (0, 2); VObj 7 [VStr [97]; VStr [98]] (2, 4)]) 4.
+Proof. vm_compute. auto. Qed.
